@@ -12,7 +12,7 @@
 //! the Cai data-hash region lies inside the file and overlaps no other reported region.
 //!
 //! Mutants caught (tools/mutant_run.sh A <diff> C12 quick):
-//!   C12-gif-no-trailer.diff  (GIF box map omits the trailer byte)  -> VIOLATION
+//!   C12-gif-no-trailer.diff  (GIF box map omits the trailer byte)  -> VIOLATION (keys "boxmap uncovered at-end fmt=Gif origin=seed asset=gif|gif-ext|gif87a|gif-xmp", not present on the unchanged tree)
 
 use kit::embed::{self, box_map, locations, save};
 use kit::walk;
@@ -183,7 +183,7 @@ fn map_case(run: &Run, a: &Asset, variant: &str, data: &[u8], mutated: Option<(u
         }
         run.outcome(c.clone());
         let origin = if mutated.is_some() { "mutant" } else { "seed" };
-        embed::report(run, format!("boxmap {c} fmt={:?} origin={origin}", k), format!("{} {variant} {}: {d}", a.name, mutated.map(|(p, v)| format!("byte {p} := {v:#04x}")).unwrap_or_default()), cj.clone());
+        embed::report(run, format!("boxmap {c} fmt={:?} origin={origin} asset={}", k, a.name), format!("{} {variant} {}: {d}", a.name, mutated.map(|(p, v)| format!("byte {p} := {v:#04x}")).unwrap_or_default()), cj.clone());
     }
     classes
 }
